@@ -188,6 +188,50 @@ def hashseed_oracle(ctx: Ctx):
     ctx.sample({"value": pairs[0][0], "same_value_other_order": pairs[0][1], "text": res[0]["out"][0]})
 
 
+# whole sessions under several hash seeds: every path that writes a set (or the members of one) gives one text
+SEED_SRC = """from inline_snapshot import snapshot
+
+
+def test_a():
+    assert 'new' in snapshot({'alpha', 'beta', 'gamma', 'delta'})
+    assert 'x1' in snapshot(frozenset({'p', 'q', 'r', 's'}))
+    assert {'u', 'v', 'w', 'x'} == snapshot()
+    assert [{'k1', 'k2', 'k3'}, 1] == snapshot([set(), 0])
+    for m in ('m1', 'm2'):
+        assert m in snapshot({'m1', 'm2', 'zz', 'yy'})
+    assert {'a', 'b', 'c'} <= snapshot({'a'})
+    assert frozenset({'f1', 'f2', 'f3'}) == snapshot()['key']
+"""
+
+
+def run_seed_session(item):
+    import shutil
+    from .. import driver
+    seed, flags = item
+    d = driver.scratch_dir()
+    try:
+        driver.write_project(d, {"test_a.py": SEED_SRC})
+        r = driver.run_pytest(d, ["--inline-snapshot=" + ",".join(flags)], env={"PYTHONHASHSEED": str(seed)})
+        return {"after": (d / "test_a.py").read_text(), "rc": r["rc"], "infra": r.get("infra_error"), "tail": (r["stdout"] + r["stderr"])[-600:]}
+    finally:
+        shutil.rmtree(d, ignore_errors=True)
+
+
+def seed_sessions(ctx: Ctx):
+    seeds = [0, 1, 2, 3] if not ctx.thorough else list(range(10))
+    for flags in (("fix",), ("create", "fix"), ("create", "fix", "trim"), ("trim",)):
+        outs = tmap(run_seed_session, [(s_, flags) for s_ in seeds])
+        ctx.count(("seed-session", flags), True, n=len(seeds))
+        if any(o.get("infra") for o in outs):
+            raise RuntimeError("pytest session timed out twice (infrastructure)")
+        texts = sorted({o["after"] for o in outs})
+        if len(texts) > 1 or any(o["rc"] not in (0, 1) for o in outs):
+            import difflib
+            diff = [l for l in difflib.unified_diff(texts[0].splitlines(), texts[-1].splitlines(), lineterm="", n=0) if l[:1] in "+-" and l[:3] not in ("+++", "---")][:4]
+            ctx.report(f"a session with --inline-snapshot={','.join(flags)} writes {len(texts)} different files under hash seeds {seeds}: {diff}", {"kind": "seed-session", "flags": list(flags)})
+    ctx.coverage["oracle"]["sessions_under_hash_seeds"] = 4 * len(seeds)
+
+
 # ----------------------------------------------------------------------------- C: formatter present / missing / format-command
 def run_fmt(item):
     src, = item
@@ -245,11 +289,18 @@ def run(ctx: Ctx):
         "A: lists of ints / strs / frozensets of ints (partially ordered) / mixed types / None in random orders: sort_set_values of the implementation vs Model/SortSet.v "
         "in Coq, and all permutations of up to 5 elements must give one text. B: the same set / frozenset / nested value built in two insertion orders, code_repr in fresh "
         "interpreters under PYTHONHASHSEED 0-3 (thorough 0-11): one text. C: programs run with black, with black blocked and with a format-command: the rewritten arguments "
-        "have identical syntax trees. non-trivial = >= 3 elements")
+        "have identical syntax trees. D: whole sessions (sets as previous value of `in` / == / <= / [key] snapshots, fix / create / trim) under hash seeds 0-3 (thorough 0-9): one file text. non-trivial = >= 3 elements")
     proof_step(ctx)
     corr_sort(ctx)
     hashseed_oracle(ctx)
+    seed_sessions(ctx)
     formatter_oracle(ctx)
+
+
+def replay_seed_session(flags):
+    outs = [run_seed_session((s_, tuple(flags))) for s_ in (0, 1, 2, 3)]
+    print({o["after"] for o in outs})
+    return len({o["after"] for o in outs}) == 1
 
 
 def replay_history(expr):
@@ -260,6 +311,8 @@ def replay_history(expr):
 
 
 def replay(ctx: Ctx, data):
+    if isinstance(data.get("case"), dict) and data["case"].get("kind") == "seed-session":
+        return replay_seed_session(data["case"]["flags"])
     if isinstance(data.get("case"), dict) and data["case"].get("kind") == "history":
         return replay_history(data["case"]["expr"])
     c = data["case"]
